@@ -438,6 +438,117 @@ def dispatch(src):
     return res
 
 
+# ------------------------------------------------------------------ the error path: handle_error / induce_panic / Continuation::report / private::eval
+def induce_steps(lib):
+    body = fn_body(lib, r'fn\s+induce_panic\s*\(&self,\s*error:\s*error::MockError\)\s*->\s*!')
+    out = []
+    msgvar = None
+    for t in live(statements(body)):
+        w = ws(t).rstrip(';')
+        m = re.fullmatch(r'let(\w+)=(?:alloc::)?format!\("\{error\}"\)', w) or re.fullmatch(r'let(\w+)=error\.to_string\(\)', w)
+        if m:
+            msgvar = m.group(1)
+            out.append('.formatMsg')
+        elif re.fullmatch(r'self\.shared_state\.panic_reasons\.locked\((?:move)?\|(\w+)\|\{?\1\.push\(error(?:\.clone\(\))?\);?\}?\)', w):
+            out.append('.record')
+        elif msgvar and w in (f'panic!("{{{msgvar}}}")', f'panic!("{{}}",{msgvar})'):
+            out.append('.panicMsg')
+        elif w in ('panic!("{error}")', 'panic!("{}",error)'):
+            out += ['.formatMsg', '.panicMsg']
+        elif w.startswith('panic!('):
+            out.append('.panicOther')
+        else:
+            raise Unrecognised(f'induce_panic: `{t[:60]}`')
+    return '[' + ', '.join(out) + ']'
+
+
+def error_path(lib, private):
+    R = {}
+    R['induce'] = induce_steps(lib)
+    he = fn_body(lib, r'fn\s+handle_error<T>\s*\(')
+    st = live(statements(he))
+    if len(st) != 1 or not ws(st[0]).startswith('matchresult{'):
+        raise Unrecognised('handle_error: shape')
+    inner = st[0][st[0].index('{') + 1:close(st[0], st[0].index('{')) - 1]
+    arms = {ws(p): ws(b).rstrip(',') for p, b in match_arms(inner)}
+    okv = re.fullmatch(r'Ok\((\w+)\)', next((p for p in arms if p.startswith('Ok(')), ''))
+    errv = re.fullmatch(r'Err\((\w+)\)', next((p for p in arms if p.startswith('Err(')), ''))
+    if len(arms) != 2 or not okv or not errv or arms[f'Ok({okv.group(1)})'] != okv.group(1):
+        raise Unrecognised('handle_error: arms')
+    R['handle'] = 'true' if arms[f'Err({errv.group(1)})'] == f'self.induce_panic({errv.group(1)})' else 'false'
+    pe = ws(fn_body(private, r"pub\s+fn\s+eval<'u,\s*'i,\s*F>\s*\("))
+    R['evalHandles'] = 'true' if pe.rstrip(';') == 'unimock.handle_error(eval::eval(unimock,inputs))' else 'false'
+    rp = live(statements(fn_body(private, r'pub\s+fn\s+report\s*\(self,\s*unimock:\s*&Unimock\)\s*->\s*!')))
+    if len(rp) != 2 or not ws(rp[0]).startswith('leterror=matchself{'):
+        raise Unrecognised('Continuation::report: shape')
+    t0 = rp[0]
+    i = t0.index('{')
+    kinds = {'Answer': '.other', 'Unmock': '.other', 'CallDefaultImpl': '.other'}
+    for pat, b in match_arms(t0[i + 1:close(t0, i) - 1]):
+        m = re.fullmatch(r'Self::(\w+)(\(\.\.\))?', ws(pat))
+        e = re.fullmatch(r'error::MockError::(\w+)\{info:F::info\(\)\}', ws(b).rstrip(','))
+        if not m or m.group(1) not in kinds:
+            raise Unrecognised(f'Continuation::report: arm `{pat}`')
+        kinds[m.group(1)] = {'NotAnswered': '.notAnswered', 'CannotUnmock': '.cannotUnmock', 'NoDefaultImpl': '.noDefaultImpl'}.get(e.group(1) if e else '', '.other')
+    R['report'] = kinds
+    R['reportInduces'] = 'true' if ws(rp[1]).rstrip(';') == 'unimock.induce_panic(error)' else 'false'
+    return R
+
+
+# ------------------------------------------------------------------ the helper cell behind default-method delegation (AsRef / AsMut<DefaultImplDelegator>)
+def cell_use(lib):
+    out = {}
+    init = r'\.default_impl_delegator_cell\.get_or_init\(\|\|(?:alloc::)?Box::new\(DefaultImplDelegator::__from_unimock\(self\.clone\(\)\)\)\)'
+    r = ws(fn_body(lib, r'fn\s+as_ref\s*\(&self\)\s*->\s*&DefaultImplDelegator'))
+    m = re.fullmatch(r'let(\w+)=self' + init + r';\1\.as_ref\(\)', r) or re.fullmatch(r'self' + init + r'\.as_ref\(\)', r)
+    out['ref'] = '.getOrInitClone' if m else '.other'
+    mu = ws(fn_body(lib, r'fn\s+as_mut\s*\(&mut\s+self\)\s*->\s*&mut\s+DefaultImplDelegator'))
+    m = re.fullmatch(r'self' + init + r';self\.default_impl_delegator_cell\.get_mut\(\)\.unwrap\(\)', mu)
+    out['mut'] = '.getOrInitClone' if m else '.other'
+    if out['ref'] == '.other' and out['mut'] == '.other':
+        raise Unrecognised('as_ref / as_mut')
+    return out
+
+
+# ------------------------------------------------------------------ Sink::push of the assembler: what is checked, and when
+def push_steps(asm):
+    body = fn_body(asm, r'fn\s+push\s*\(&mut\s+self,\s*info:\s*MockFnInfo,\s*mut\s+builder:\s*DynCallPatternBuilder\)')
+    steps = []
+    occupied = vacant = None
+    for t in live(statements(body)):
+        w = ws(t).rstrip(';')
+        if re.fullmatch(r'ifletSome\((\w+)\)=builder\.responder_error\.take\(\)\{returnErr\(.*\);?\}', w):
+            steps.append('.errIfOutputError')
+        elif re.fullmatch(r'let\w+=builder\.pattern_match_mode', w) or re.fullmatch(r'let\w+=info\.type_id', w):
+            continue
+        elif re.fullmatch(r'let(\w+)=self\.new_call_pattern\(builder\)', w):
+            steps.append('.newPattern')
+        elif w.startswith('matchself.fn_mockers.entry('):
+            i = t.index('{')
+            for pat, b in match_arms(t[i + 1:close(t, i) - 1]):
+                pw, bw = ws(pat), ws(b)
+                if pw.startswith('Entry::Occupied('):
+                    m = re.fullmatch(r'\{if(\w+)\.get\(\)\.pattern_match_mode!=pattern_match_mode\{returnErr\(format!\(.*\),?\);?\}\1\.get_mut\(\)\.call_patterns\.push\(call_pattern\);?\}', bw)
+                    occupied = ['.errIfModeDiffers', '.appendPattern'] if m else None
+                    if not m:
+                        raise Unrecognised('push: occupied arm')
+                elif pw.startswith('Entry::Vacant('):
+                    m = re.fullmatch(r'\{(\w+)\.insert\(FnMocker\{info,pattern_match_mode,call_patterns:vec!\[call_pattern\],?\}\);?\}', bw)
+                    if not m:
+                        raise Unrecognised('push: vacant arm')
+                    vacant = ['.insertMocker']
+                else:
+                    raise Unrecognised(f'push: arm `{pat}`')
+            steps.append('.onEntry')
+        elif w == 'Ok(())':
+            steps.append('.ok')
+        else:
+            raise Unrecognised(f'push: `{t[:60]}`')
+    if occupied is None or vacant is None:
+        raise Unrecognised('push: entry match')
+    return {'steps': '[' + ', '.join(steps) + ']', 'occupied': '[' + ', '.join(occupied) + ']', 'vacant': '[' + ', '.join(vacant) + ']'}
+
+
 # ------------------------------------------------------------------ MockAssembler::new_call_pattern: ordered slot allocation
 def slot_alloc(src):
     body = fn_body(src, r'fn\s+new_call_pattern\s*\(')
@@ -670,11 +781,39 @@ def builder_table(build_src, counter_src):
     return T
 
 
+def find_responder(cp_src):
+    body = fn_body(cp_src, r'fn\s+find_responder_by_call_index\s*\(')
+    st = live(statements(body))
+    if len(st) != 3:
+        raise Unrecognised('find_responder_by_call_index: shape')
+    if ws(st[0]) != 'ifresponders.is_empty(){returnNone;}':
+        raise Unrecognised('find_responder_by_call_index: empty check')
+    m = re.fullmatch(r'let(\w+)=responders\.binary_search_by\(\|(\w+)\|\2\.response_index\.cmp\(&call_index\)\);', ws(st[1]))
+    if not m:
+        raise Unrecognised('find_responder_by_call_index: search')
+    rv = m.group(1)
+    m = re.fullmatch(r'Some\(match' + rv + r'\{(.*)\}\)', ws(st[2]))
+    if not m:
+        raise Unrecognised('find_responder_by_call_index: result')
+    offs = {}
+    for pat, b in match_arms(st[2][st[2].index('{') + 1:st[2].rindex('}')]):
+        pm = re.fullmatch(r'(Ok|Err)\((\w+)\)', ws(pat))
+        bm = re.fullmatch(r'&responders\[(\w+)(?:([-+])(\d+))?\]\.responder', ws(b).rstrip(','))
+        if not pm or not bm or bm.group(1) != pm.group(2):
+            raise Unrecognised(f'find_responder_by_call_index: arm `{pat}`')
+        k = int(bm.group(3) or 0)
+        offs[pm.group(1)] = f'i + {k}' if bm.group(2) == '+' else (f'i - {k}' if k else 'i')
+    if sorted(offs) != ['Err', 'Ok']:
+        raise Unrecognised('find_responder_by_call_index: arms')
+    return f'if keys.size = 0 then none else\n  match binarySearch keys k with\n  | (true, i) => some ({offs["Ok"]})\n  | (false, i) => some ({offs["Err"]})'
+
+
 BUILDER_FALLBACK = {
     'qrvOnce': '(true, some 1, .exact)', 'qrvNTimes': '(false, none, .exact)', 'qrvAtLeast': '(false, none, .atLeast)',
     'qrvClauseViaOnce': 'true', 'qrvDropSingleUse': 'true',
     'qOnce': '(some 1, .exact)', 'qNTimes': '(none, .exact)', 'qAtLeast': '(none, .atLeast)',
     'qClauseOrdered': 'some (1, .exact)', 'qClauseUnordered': 'none', 'thenAdd': '(0, .atLeastPlusOne)',
+    'findResponder': 'findKey keys k',
     'addToMinimum': 'min + ((delta))', 'quantifyDelta': '(times)', 'quantifyIdx': 'idx + ((times))',
 }
 
@@ -684,8 +823,13 @@ def emit_builder(root):
     try:
         T = builder_table(strip_comments(open(os.path.join(root, 'build.rs')).read()), strip_comments(open(os.path.join(root, 'counter.rs')).read()))
         ok, note = True, ''
+        try:
+            T['findResponder'] = find_responder(strip_comments(open(os.path.join(root, 'call_pattern.rs')).read()))
+            fr_ok = True
+        except (Unrecognised, ValueError, IndexError) as e:
+            T['findResponder'], fr_ok, note = BUILDER_FALLBACK['findResponder'], False, str(e)
     except (Unrecognised, ValueError, IndexError) as e:
-        T, ok, note = dict(BUILDER_FALLBACK), False, str(e)
+        T, ok, note, fr_ok = dict(BUILDER_FALLBACK), False, str(e), False
     L = ['import Unimock.Model.Core',
          '/-! GENERATED by tools/translate_control.py from /repo/src/build.rs and /repo/src/counter.rs — do not edit. -/',
          'namespace Unimock.Generated',
@@ -709,6 +853,9 @@ def emit_builder(root):
     L.append(f'def addToMinimum (min delta : Nat) : Nat := {T["addToMinimum"]}')
     L.append(f'def quantifyDelta (times : Nat) : Nat := {T["quantifyDelta"]}')
     L.append(f'def quantifyIdx (idx times : Nat) : Nat := {T["quantifyIdx"]}')
+    L.append(f'def recognised_find_responder : Bool := {"true" if fr_ok else "false"}')
+    L.append('/-- `find_responder_by_call_index` over the responders\' start indexes: the index selected (`binarySearch` is the model of std\'s `binary_search_by`) -/')
+    L.append(f'def findResponderSrc (keys : Array Nat) (k : Nat) : Option Nat :=\n  {T["findResponder"]}')
     L.append('end Unimock.Generated')
     text = '\n'.join(L) + '\n'
     old = open(out).read() if os.path.exists(out) else None
@@ -729,6 +876,10 @@ FALLBACK = {
     'noverify': '[.panicIfNotOriginal, .clearVerifyInDrop]',
     'new': {'original_instance': 'true', 'torn_down': 'false', 'verify_in_drop': 'true'},
     'clone': {'original_instance': 'false', 'torn_down': 'false', 'verify_in_drop': 'src.verifyInDrop'},
+    'errpath': {'induce': '[.formatMsg, .record, .panicMsg]', 'handle': 'true', 'evalHandles': 'true', 'reportInduces': 'true',
+                'report': {'Answer': '.notAnswered', 'Unmock': '.cannotUnmock', 'CallDefaultImpl': '.noDefaultImpl'}},
+    'cell': {'ref': '.getOrInitClone', 'mut': '.getOrInitClone'},
+    'push': {'steps': '[.errIfOutputError, .newPattern, .onEntry, .ok]', 'occupied': '[.errIfModeDiffers, .appendPattern]', 'vacant': '[.insertMocker]'},
     'slots': 'if ordered then (cur, cur + n, cur + n) else (0, 0, cur)',
     'nomocker': '(.ifDefault (.leaf .callDefault) (.ifPartial (.leaf .unmock) (.onFallback (.leaf .errNoMockImplementation) (.leaf .unmock))))',
     'nomatch': '(.onFallback (.leaf .errNoMatchingCallPatterns) (.leaf .unmock))',
@@ -777,8 +928,12 @@ def main():
         got['nomocker'], got['nomatch'] = (FALLBACK['nomocker'], False), (FALLBACK['nomatch'], False)
         notes.append(f'eval_dyn: {e}')
     attempt('dispatch', lambda: dispatch(ev))
+    priv = strip_comments(open(os.path.join(ROOT, 'private.rs')).read())
+    attempt('errpath', lambda: error_path(lib, priv))
     asm = strip_comments(open(os.path.join(ROOT, 'assemble.rs')).read())
     attempt('slots', lambda: slot_alloc(asm))
+    attempt('push', lambda: push_steps(asm))
+    attempt('cell', lambda: cell_use(lib))
 
     def b(x):
         return 'true' if x else 'false'
@@ -789,7 +944,7 @@ def main():
     L.append('/-! GENERATED by tools/translate_control.py from /repo/src/{teardown,lib,eval}.rs — do not edit. -/')
     L.append('namespace Unimock.Generated')
     L.append('open Unimock.Gates')
-    for k in ('teardown', 'drop', 'verify', 'noverify', 'new', 'clone', 'nomocker', 'nomatch', 'dispatch', 'slots'):
+    for k in ('teardown', 'drop', 'verify', 'noverify', 'new', 'clone', 'nomocker', 'nomatch', 'dispatch', 'slots', 'errpath', 'push', 'cell'):
         L.append(f'def recognised_{k} : Bool := {b(got[k][1])}')
     L.append(f'def teardownSteps : List Step := {got["teardown"][0]}')
     L.append(f'def dropSteps : List DStep := {got["drop"][0]}')
@@ -808,6 +963,23 @@ def main():
         L.append(f'  | .{v} => {dp[k]}')
     L.append(f'def dispatchEvalUnmock : Disp := {dp["@Unmock"]}')
     L.append(f'def dispatchEvalCallDefault : Disp := {dp["@CallDefaultImpl"]}')
+    ep = got['errpath'][0]
+    L.append('/-- the error path: `Unimock::induce_panic` (statement list), `handle_error` sends `Err` there, `private::eval` wraps `eval::eval` in')
+    L.append('    `handle_error`, `Continuation::report` maps the unhandled continuation to its error and sends it there too -/')
+    L.append(f'def inducePanicSteps : List EStep := {ep["induce"]}')
+    L.append(f'def handleErrorInduces : Bool := {ep["handle"]}')
+    L.append(f'def evalHandlesError : Bool := {ep["evalHandles"]}')
+    L.append(f'def reportInduces : Bool := {ep["reportInduces"]}')
+    L.append('def reportError : RCont → EKind')
+    for v, k in (('answer', 'Answer'), ('unmock', 'Unmock'), ('callDefault', 'CallDefaultImpl')):
+        L.append(f'  | .{v} => {ep["report"][k]}')
+    L.append('/-- `impl AsRef / AsMut<DefaultImplDelegator> for Unimock`: how the helper cell is used -/')
+    L.append(f'def delegatorCellRef : CellUse := {got["cell"][0]["ref"]}')
+    L.append(f'def delegatorCellMut : CellUse := {got["cell"][0]["mut"]}')
+    L.append('/-- `impl Sink for MockAssembler`: `push` as a statement list, and the two arms of its `Entry` match -/')
+    L.append(f'def pushSteps : List PStep := {got["push"][0]["steps"]}')
+    L.append(f'def pushOccupied : List PStep := {got["push"][0]["occupied"]}')
+    L.append(f'def pushVacant : List PStep := {got["push"][0]["vacant"]}')
     L.append('/-- `MockAssembler::new_call_pattern`: (range.start, range.end, current_call_index afterwards) from whether the pattern is')
     L.append('    ordered, whether its count expectation is exact (always so for ordered ones: type-state), the index so far, the exact count -/')
     L.append(f'def slotAlloc (ordered isExact : Bool) (cur n : Nat) : Nat × Nat × Nat :=\n  {got["slots"][0]}')
